@@ -2,6 +2,7 @@
 (* Batch of programs interpreted by ConcGo.tla.  THIS FILE IS A SAMPLE: every run of the C14 check
    generates its own batch (seeded generator of shapes in checks/c14.py) and writes it over this
    module in its staging directory; the same records, as JSON, go to the Go driver. *)
+EXTENDS Integers    \* a capacity of -1 stands for a nil channel
 Progs == <<
   [id |-> 1, chans |-> <<0>>,
    threads |-> << <<[op |-> "go", t |-> 2], [op |-> "range", ch |-> 1], [op |-> "print"]>>,
